@@ -148,6 +148,7 @@ def r05_1(ctx):
         fi2, outs = run_il_exec(idx, "ForLoop", lambda: {"control": mk_pure("c", bool_vt(isb)), "compound": mk_pure("body", cls="Effect")}, method="il_write")
         obs = " | ".join(sorted({normalise(outcome_text(o)) for o in outs}))
         ctx.check(f"ForLoop.il_write[cond {'bool' if isb else 'bv'}]", obs == f"REPEAT({beta}, <body.effect_var()>)", f"REPEAT({beta}, body)", obs, fn_where(idx, fi2))
+    branch_emits_both_arms(ctx)
 
 
 @rule("R05.2", "C05", "Sequence keeps its effects in argument order (dropping only Empty) and emits SEQN(n, e1..en) in that order", min_instances=6)
@@ -393,3 +394,30 @@ def r05_9(ctx):
     from .c06 import ternary_guard_checks
 
     ternary_guard_checks(ctx)
+
+
+@rule("R05.10", "C05", "an effect's operand list reaches below every kind of operand node (what decides whether a pending side effect is sequenced in front of its consumer or left over for the instruction start)", min_instances=10)
+def r05_10(ctx):
+    from .c06 import op_list_completeness
+
+    op_list_completeness(ctx)
+
+
+def branch_emits_both_arms(ctx):
+    """whatever kind of value the condition is (a literal, a folded truth value, a register ...), the emitted BRANCH / REPEAT
+    references the effects it was given: an arm that is declared but not referenced never runs"""
+    idx = get_index(ctx.env)
+    fb = idx.func("Branch.il_write")
+    fl = idx.func("ForLoop.il_write")
+    kinds = sorted(c for c in idx.subclasses("Pure") if c in idx.classes)
+    ctx.need(len(kinds) >= 15, f"value classes: only {len(kinds)} found")
+    for cname in kinds:
+        for val in (0, 1):
+            _, outs = run_il_exec(idx, "Branch", lambda: {"cond": mk_pure("c", mk_vt("tc", False, 32), cls=cname, fields={"value": val}), "then": mk_pure("t", cls="Effect"), "otherwise": mk_pure("e", cls="Effect")}, method="il_write")
+            obs = sorted({normalise(outcome_text(o)) for o in outs})
+            ok = bool(obs) and all(o.startswith("BRANCH(") and "<t.effect_var()>" in o and "<e.effect_var()>" in o for o in obs)
+            ctx.check(f"Branch.il_write references both arms [condition is a {cname} holding {val}]", ok, "BRANCH(<cond>, <t.effect_var()>, <e.effect_var()>)", " | ".join(obs)[:120], fn_where(idx, fb), nontrivial=(cname in ("Number", "Bool", "LetVar")))
+        _, outs = run_il_exec(idx, "ForLoop", lambda: {"control": mk_pure("c", mk_vt("tc", False, 32), cls=cname, fields={"value": 0}), "compound": mk_pure("body", cls="Effect")}, method="il_write")
+        obs = sorted({normalise(outcome_text(o)) for o in outs})
+        ok = bool(obs) and all(o.startswith("REPEAT(") and "<body.effect_var()>" in o for o in obs)
+        ctx.check(f"ForLoop.il_write references its body [condition is a {cname}]", ok, "REPEAT(<cond>, <body.effect_var()>)", " | ".join(obs)[:120], fn_where(idx, fl), nontrivial=False)
